@@ -227,6 +227,16 @@ def pattern(spm):
     return set(zip([int(i) for i in spm.I], [int(j) for j in spm.J]))
 
 
+def _same_bus(ss, ya, yb):
+    """True when the two algebraic addresses are the angle / magnitude of one bus."""
+    a = [int(k) for k in ss.Bus.a.a]
+    v = [int(k) for k in ss.Bus.v.a]
+    for k in range(ss.Bus.n):
+        if {ya, yb} <= {a[k], v[k]}:
+            return True
+    return False
+
+
 def assembled_case(ctx, case):
     import os
     path = os.path.join(build.cases_root(), case['path'])
@@ -307,6 +317,7 @@ def assembled_case(ctx, case):
             patfull[ro + i, co + j] = True
     nkink = nbad = 0
     active = 0
+    bus_addr = set(int(a) for a in list(ss.Bus.a.a) + list(ss.Bus.v.a))
     for j in range(n + m):
         if j < n and j in pegged:
             continue
@@ -336,7 +347,9 @@ def assembled_case(ctx, case):
                 if ss.Bus.n_islanded_buses else set()
             ctx.fail(clause, dict(case=case, equation=rname, variable=cname, jacobian=float(got[i]),
                                   finite_difference=float(d[i]), row_of_islanded_bus=bool(i in isl_rows)),
-                     sig=dict(equation=rname.split()[0], variable=cname.split()[0],
+                     sig=dict(equation=rname.split()[0], variable=cname.split()[0], ipadd=int(case['ipadd']),
+                              column_kind=('same_bus' if j in isl_rows and _same_bus(ss, i - n, j - n) else
+                                           'bus' if j >= n and (j - n) in bus_addr else 'device'),
                               row_of_islanded_bus=bool(i in isl_rows and d[i] == 0.0)))
         active += int((~kink & (np.abs(d) > 1e-9)).sum())
     resid(x0, y0)
